@@ -109,6 +109,8 @@ type harnessEvidence struct {
 	Unconfirmed    int                    `json:"unconfirmed_candidates"`
 	Confirmed      int                    `json:"confirmed_violations"`
 	Nondet         map[string]int64       `json:"nondeterminism_sources,omitempty"`
+	ModelVsPG      int                    `json:"sql_model_vs_pg_query_checked"`
+	ModelVsPGDisagree int                 `json:"sql_model_vs_pg_query_disagreements"`
 	DomDecided     int64                  `json:"byte_domain_decisions"`
 	DomRechecked   int64                  `json:"byte_domain_decisions_rechecked_by_z3"`
 	DomForks       int64                  `json:"byte_domain_forks"`
@@ -160,6 +162,7 @@ func cmdRun(args []string) int {
 	}
 	defer twin.Close()
 	known := loadKnown()
+	referee := newReferee()
 
 	var hes []harnessEvidence
 	var samples []string
@@ -218,6 +221,13 @@ func cmdRun(args []string) int {
 			}
 			outs, err := twin.RunBatch(reqs)
 			if err == nil {
+				if referee != nil {
+					n, dis, ex := referee.modelAgreement(outs)
+					he.ModelVsPG, he.ModelVsPGDisagree = n, dis
+					for _, e := range ex {
+						fmt.Printf("NOTE: SQL model and pg_query disagree on %q\n", e)
+					}
+				}
 				for i, lines := range outs {
 					he.TracesChecked++
 					want := ex.TraceObs[i]
@@ -282,6 +292,11 @@ func cmdRun(args []string) int {
 					ok = false
 				default:
 					ok = hasLine(lines, "ASSERT-FAIL "+id)
+				}
+				if ok && referee != nil {
+					if problem, asked := referee.seesProblem(id, lines); asked && !problem {
+						ok = false // PostgreSQL's parser does not see it: the SQL model is wrong
+					}
 				}
 				if ok {
 					confirmed = cs[i]
